@@ -185,8 +185,12 @@ func init() {
 		orch(pkgRC, "VerifFullExitExt", 2, "FULL stack: runtime exit with 1 extension", "exit", "scenario-done"),
 		orch(pkgRC, "VerifFullRespondExit", 2, "FULL stack: exit after the response was delivered", "respond-exit", "scenario-done"),
 		orch(pkgRC, "VerifFullExitThenStall", 2, "FULL stack: exit, then a stall in the next generation", "exit", "timeout", "scenario-done"),
+		orch(pkgRC, "VerifC06RuntimeFault", 1, "runtime fault at each of 5 protocol steps {during init, init/error report, after receiving the invocation, after the response, idle in next} x exit {0, 1, SIGSEGV}; 3 invocations: failure status (never the timeout), body = delivered response / own init-error payload / nothing (unreported init fault) / JSON naming Runtime.ExitError; recovery", "body-delivered-response", "body-init-error-payload", "body-none", "body-first-fault", "who-0-point-4-kind-2", "done"),
+		orch(pkgRC, "VerifC06RuntimeFaultExt", 1, "as above with one healthy extension", "body-first-fault", "done"),
+		orch(pkgRC, "VerifC06ExtensionFault", 1, "extension fault at each of 5 steps {before register, after register, after first event, init/error report, exit/error report} x exit {0, 1, signal}, function finished or still running when it happens: failure status, body = delivered response / nothing / JSON naming Extension.Crash (Extension.* after a report)", "body-delivered-response", "body-none", "body-first-fault", "who-1-point-4-kind-2", "done"),
+		orch(pkgRC, "VerifC06ExtensionFault2", 1, "extension fault with a second, healthy extension", "body-first-fault", "done"),
 	}
-	checkRegistry = append(checkRegistry, &checkSpec{id: "C06", level: "other", quick: c06, thorough: withD(c06, 3, 3000000), assume: orchAssume, outside: append(orchOutside, "extension crashes / init errors (to be added)", "exit codes vs signals (the fake supervisor reports status 1)")})
+	checkRegistry = append(checkRegistry, &checkSpec{id: "C06", level: "other", quick: c06, thorough: withD(c06, 2, 3000000), assume: orchAssume, outside: append(orchOutside, "launch failures of extensions (C03/C09 harnesses cover the barrier and shutdown side)", "faults in later generations or of two processes at once", "the exact errorType after an extension's own exit/error report (any Extension.* accepted)")})
 }
 
 func init() {
